@@ -357,4 +357,11 @@ def run_graph(expr, env: Env):
         raise GraphError("; ".join(probs[:3]))
     it = Interp(dsk, env)
     out = [it.get(k) for k in keys]
+    # a partition computed from concrete data only (e.g. the labels of a RangeIndex) comes back as a pandas object
+    for i, v in enumerate(out):
+        if isinstance(v, (pd.DataFrame, pd.Series)) and len(v):
+            try:
+                out[i] = env.convert(v)
+            except Unsupported:
+                pass
     return out, it
